@@ -83,6 +83,16 @@ type FuncSpec struct {
 	Inlines  []string // callees (short names) whose bodies are inlined here although they have contracts
 	Emits    []EmitSpec // ghost records this function appends (for callers using the contract)
 	SiteReqs map[string][]Clause // "at <callee>: requires E": obligations at every call of that callee inside this function
+	GhostInit []GhostSet // ghost variables of this function with their initial values
+	GhostSets []GhostSet // ghost updates performed by a call of this function
+	Advances  []string   // ghost clocks that advance by an arbitrary non-negative amount during a call
+}
+
+// GhostSet assigns a ghost variable.
+type GhostSet struct {
+	Name string
+	Expr SExpr
+	Text string
 }
 
 // EmitSpec: the function appends N ghost records named Name.
@@ -463,7 +473,28 @@ func parseClause(fs *FuncSpec, word, rest string, line int) error {
 	case "records":
 		fs.Records = strings.TrimSpace(rest)
 	case "ghost":
+		// ghost NAME = EXPR   (initial value, in the function that owns it)
+		if i := strings.Index(rest, "="); i > 0 && !strings.Contains(rest[:i], ",") {
+			x, err := ParseExpr(strings.TrimSpace(rest[i+1:]))
+			if err != nil {
+				return fmt.Errorf("ghost: %v", err)
+			}
+			fs.GhostInit = append(fs.GhostInit, GhostSet{Name: strings.TrimSpace(rest[:i]), Expr: x, Text: rest})
+			return nil
+		}
 		fs.Ghost = append(fs.Ghost, splitNames(rest)...)
+	case "ghostset":
+		i := strings.Index(rest, "=")
+		if i < 0 {
+			return fmt.Errorf("ghostset NAME = EXPR")
+		}
+		x, err := ParseExpr(strings.TrimSpace(rest[i+1:]))
+		if err != nil {
+			return fmt.Errorf("ghostset: %v", err)
+		}
+		fs.GhostSets = append(fs.GhostSets, GhostSet{Name: strings.TrimSpace(rest[:i]), Expr: x, Text: rest})
+	case "advances":
+		fs.Advances = append(fs.Advances, splitNames(rest)...)
 	case "reveal":
 		fs.Reveal = append(fs.Reveal, splitNames(rest)...)
 	case "at":
